@@ -22,6 +22,9 @@ def main():
         c.write(False, traceback.format_exc())
         os._exit(3)
     sys.stdout.flush()
+    if os.environ.get("VF_COV"):
+        import ctypes
+        ctypes.CDLL(None).exit(0)      # run the gcov destructors of the instrumented library
     os._exit(0)
 
 
